@@ -5,14 +5,25 @@ use std::time::Duration;
 #[derive(Debug)]
 pub struct AtomicDuration(AtomicUsize);
 
+// encode an optional duration into whole milli seconds, 0 means `None`
+// `Some(d)` is rounded *up* and clamped to at least 1ms, so that it never
+// collides with the `None` sentinel (which would turn a sub-millisecond or
+// zero timeout into "wait forever") and the decoded value is never shorter
+// than `d` (which would let a timed wait fire early)
+#[inline]
+fn encode(dur: Option<Duration>) -> usize {
+    match dur {
+        None => 0,
+        Some(d) => {
+            let ms = d.as_nanos().div_ceil(1_000_000);
+            usize::try_from(ms).unwrap_or(usize::MAX).max(1)
+        }
+    }
+}
+
 impl AtomicDuration {
     pub fn new(dur: Option<Duration>) -> Self {
-        let dur = match dur {
-            None => 0,
-            Some(d) => d.as_millis() as usize,
-        };
-
-        AtomicDuration(AtomicUsize::new(dur))
+        AtomicDuration(AtomicUsize::new(encode(dur)))
     }
 
     #[inline]
@@ -26,12 +37,7 @@ impl AtomicDuration {
 
     #[inline]
     pub fn store(&self, dur: Option<Duration>) {
-        let timeout = match dur {
-            None => 0,
-            Some(d) => d.as_millis() as usize,
-        };
-
-        self.0.store(timeout, Ordering::Relaxed);
+        self.0.store(encode(dur), Ordering::Relaxed);
     }
 
     #[inline]
